@@ -5,3 +5,4 @@ import PcVerif.Props.C20
 import PcVerif.Props.C19
 import PcVerif.Props.C18
 import PcVerif.Props.C13
+import PcVerif.Props.C01
